@@ -239,6 +239,9 @@ func (c *Conn) Close() error {
 	}
 	c.closed = true
 
+	// Data that arrives from now on is for a closed session and gets refused.
+	c.handler.rmStream(c.stanzaWriter.sid)
+
 	// Flush any remaining data to be written.
 	err := c.Flush()
 	if err != nil {
